@@ -90,7 +90,12 @@ def neg(t):
     if t[0] == "not":
         return t[1]
     if t[0] == "cmp":
-        inv = {"==": "!=", "!=": "==", "<": ">=", ">=": "<", ">": "<=", "<=": ">"}
+        # orderings are kept in one orientation (< and <= only), like cmp_ does: !(a < b) is (b <= a)
+        if t[1] in ("==", "!="):
+            return ("cmp", "!=" if t[1] == "==" else "==", t[2], t[3])
+        inv = {"<": "<=", "<=": "<", ">": "<=", ">=": "<"}
+        if t[1] in ("<", "<="):
+            return ("cmp", inv[t[1]], t[3], t[2])
         return ("cmp", inv[t[1]], t[2], t[3])
     if t[0] == "and":
         return ("or", neg(t[1]), neg(t[2]))
@@ -1395,6 +1400,37 @@ class Engine:
             for v in s:
                 self.modified_vars(v, acc)
 
+    def continuing_mods(self, s):
+        """(decl ids assigned on some path through statement s after which the loop may run another iteration, does s always leave
+        the loop).  A variable that is only ever assigned immediately before leaving the loop (`found = x; break;`) still has its
+        pre-loop value at the start of every iteration and at a normal loop exit, so it need not be havocked."""
+        if not isinstance(s, dict):
+            return set(), False
+        k = s.get("s")
+        if k == "block":
+            acc = set()
+            for c in s.get("b") or []:
+                if isinstance(c, dict) and c.get("s") == "continue":
+                    return acc, False
+                m, ex = self.continuing_mods(c)
+                if ex:
+                    return set(), True
+                acc |= m
+            return acc, False
+        if k == "if":
+            m1, e1 = self.continuing_mods(s.get("then"))
+            m2, e2 = self.continuing_mods(s.get("else")) if s.get("else") is not None else (set(), False)
+            mc = set()
+            self.modified_vars(s.get("c"), mc)
+            return mc | (set() if e1 else m1) | (set() if e2 else m2), (e1 and e2)
+        if k in ("break", "ret"):
+            return set(), True
+        if k == "expr" and isinstance(s.get("e"), dict) and (s["e"].get("k") == "throw" or (s["e"].get("k") == "call" and ((s["e"].get("fn") or {}).get("noret")))):
+            return set(), True
+        acc = set()
+        self.modified_vars(s, acc)
+        return acc, False
+
     def exec_loop(self, st, fr, s):
         kind = s["s"]
         fr.cleanups.append([])
@@ -1407,9 +1443,9 @@ class Engine:
                 outs.append(q)
                 continue
             f = self._fr(q, fr)
-            mods = set()
-            self.modified_vars(s.get("body"), mods)
+            mods, _ex = self.continuing_mods(s.get("body"))
             self.modified_vars(s.get("inc"), mods)
+            self.modified_vars(s.get("c"), mods)
             # --- path A: zero iterations
             qa = q.clone()
             fa = self._fr(qa, fr)
@@ -1460,7 +1496,9 @@ class Engine:
                             for q4, _ in self.ev(q3, self._fr(q3, fr), s["inc"]):
                                 self._loop_end(q4, fr, mods, s, outs)
                         else:
-                            self._loop_end(q3, fr, mods, s, outs)
+                            # leaving through `break`: this WAS the last iteration, so what it stored stands (the havoc at loop entry already
+                            # accounts for all earlier iterations); only a normal end of the body may be followed by further iterations
+                            self._loop_end(q3, fr, mods, s, outs, havoc=not broke)
                     else:
                         q3.loopdepth -= 1
                         outs.append(q3)
@@ -1472,9 +1510,9 @@ class Engine:
             res.append(q)
         return res
 
-    def _loop_end(self, q, fr, mods, s, outs):
+    def _loop_end(self, q, fr, mods, s, outs, havoc=True):
         f = self._fr(q, fr)
-        for d in mods:
+        for d in (mods if havoc else ()):
             lv = f.binds.get(d)
             if lv is not None:
                 q.mem[lv] = ("havoc", next(self.uid), lv[2] if len(lv) > 2 else "v")
@@ -1513,7 +1551,31 @@ class Engine:
             if s.status == "abort":
                 continue
             paths.append(PathResult(s.events, s.retval, s))
+        self.mark_abort_checks(paths)
         return paths
+
+    @staticmethod
+    def mark_abort_checks(paths):
+        """Semantic definition of an abort check, independent of how it is written: a branch condition is an abort check on a
+        surviving path iff NO surviving path shares the same history of decisions and took the opposite decision - i.e. the
+        other side never returns (`check(c)`, `if (!c) abort()`, `if (c) return; fail();`, a helper that does any of these)."""
+        seqs = []
+        for p in paths:
+            seqs.append([e for e in p.events if e.kind == "ASSUME"])
+        hist = set()
+        for sq in seqs:
+            pre = ()
+            for e in sq:
+                hist.add((pre, e.a))
+                pre = pre + (e.a,)
+        for sq in seqs:
+            pre = ()
+            for e in sq:
+                if not (e.extra or {}).get("abort_check") and isinstance(e.a, tuple) and (pre, neg(e.a)) not in hist:
+                    if e.extra is None:
+                        e.extra = {}
+                    e.extra["abort_check"] = True
+                pre = pre + (e.a,)
 
 
 def root_param_names(fn):
